@@ -132,12 +132,12 @@ FAMS = ['pople', 'dunning', 'ahlrichs', 'sto', 'jensen']
 FLAGS = ['uncontract_general', 'uncontract_spdf', 'uncontract_segmented', 'make_general', 'optimize_general', 'remove_free_primitives']
 
 
-def random_call(rng):
+def random_call(rng, kind=None):
     """a call on the public / memoised API with a random argument spelling"""
     dd = os.path.join(paths.REPO, 'basis_set_exchange', 'data')
     # the same directory under several spellings: each spelling is a different argument, hence a cold key (a cache miss)
     ddv = rng.choice([None, dd, dd, dd + '/', dd + '//', dd + '/.'])
-    c = rng.randrange(12)
+    c = rng.randrange(12) if kind is None else kind
     if c <= 3:
         kw = {f: True for f in FLAGS if rng.random() < 0.25}
         if rng.random() < 0.5:
@@ -325,10 +325,13 @@ def poison(ctx, seed, ref):
     share library-internal state with the damaged object) and the first call again: both must be what an uncached process
     returns"""
     rng = random.Random(seed)
-    c1 = random_call(rng)
+    kind = [0, 4, 5, 6, 9, 10, 10, 10, 11][seed % 9]       # the functions that return containers; get_references three times
+    c1 = random_call(rng, kind)
+    if kind in (0, 10):
+        c1[2].pop('fmt', None)                              # a dictionary / list result, not text
     for _ in range(40):
-        c2 = random_call(rng)
-        if c2[0] == c1[0] and (c2[1], c2[2]) != (c1[1], c1[2]):
+        c2 = random_call(rng, kind)
+        if (c2[1], c2[2]) != (c1[1], c1[2]):
             break
     else:
         return
